@@ -1,4 +1,4 @@
-"""C08 — every range sent to the client is well-formed (DESIGN §4 C08).  PARTIAL.
+"""C08 — every range sent to the client is well-formed (DESIGN §4 C08).  PARTIAL (workspace-level responses; lexer ranges evaluated).
 
 theorems : lean/GoldModel/Props/C08T5.lean — t5_partial / t5_parse / t5_nonterminal / t5_outline: for EVERY token list as the lexer
            produces them (start <= end, `.` non-empty, starts in order, ends in order except string literals / comments) the tree parse_gold builds passes the range
